@@ -127,7 +127,7 @@ def canon_value(op, v):
         nodes = sorted([n for n in v["nodes"] if _under_roots(n[0])])
         sides = [[p, (sorted(map(list, c)) if isinstance(c, list) else c)] for p, c in v["sidecars"]]
         return {"nodes": [list(n) for n in nodes], "sidecars": sorted(sides, key=lambda x: x[0])}
-    if op.get("op") == "world" and op.get("do") == "getter_paths" and isinstance(v, list):
+    if op.get("op") == "world" and op.get("do") in ("getter_paths", "getter_all") and isinstance(v, list):
         return sorted(v, key=lambda x: json.dumps(x, ensure_ascii=False))
     if op.get("op") in UNORDERED_OPS and isinstance(v, list):
         return sorted(v, key=lambda x: json.dumps(x, sort_keys=True, ensure_ascii=False))
